@@ -500,7 +500,17 @@ qb_vsnprintf_serialize(char *serialize, size_t max_len,
 	 * argument set to QB_TRUE, so callers can honor extended setting)
 	 */
 	if ((qb_xc = strchr(serialize, QB_XC)) != NULL) {
-		*qb_xc = *(qb_xc + 1)? '|' : '\0';
+		if (*(qb_xc + 1)) {
+			*qb_xc = '|';
+		} else {
+			/*
+			 * Nothing follows the marker: the stored format ends
+			 * where it stood, and the arguments must follow that
+			 * terminator directly (the reader looks for them there).
+			 */
+			*qb_xc = '\0';
+			location--;
+		}
 	}
 
 	format = (char *)fmt;
